@@ -46,6 +46,9 @@ def check(ctx):
             lines += calls_for(list(x))
     for i in range(20000 if ctx.thorough else 300):
         lines += calls_for([rng.randrange(256) for _ in range(rng.choice([1, 2, 3, 4, 5, 6, 7, 30, 31, 32, 33, 200]))])
+    # hexadecimal texts with a dangling last character (lengths 1, 3, 5 ...): only memory safety is required
+    for n in (0, 1, 2, 3, 7, 32):
+        lines.append("Codec hexdec_c_odd %s" % fmt(hexenc([rng.randrange(256) for _ in range(n)]) + [rng.choice([48, 65, 70, 57])]))
     # base64 of inputs beyond 2^16 bytes and beyond 2^16 three-byte groups (judged by the position-by-position form of the definition)
     for n in ([65535, 65536, 65537, 196607, 196608, 196609, 200000] if ctx.thorough else [65536, 196608, 196610]):
         x = [rng.randrange(256) for _ in range(n)]
